@@ -203,6 +203,7 @@ RULE = (
     "constraint set is linear in (X, s0, s1), so the HiGHS LP gives feasibility, the 'max' optimum, and a first-order optimality certificate "
     "for 'unity' (min grad.s over the feasible set); per-sample identities are checked directly on the returned values. Non-trivial = some "
     "target outside the gamut (scales != 1), the 'max' objective, or an infeasible set."
+    " Function entry, even sample counts: rounded targets as int64 and as floats give the same scales (or both no feasible scales)."
 )
 
 PROP = Prop(
